@@ -385,6 +385,9 @@ func seeds() []seed {
 			SeedInlineIfc{I: SeedInlineIfc{I: SeedInlineIfc{I: map[string]interface{}{"deep": true}, B: "3"}, B: "2"}, B: "1"},
 			SeedInlineIfc{I: SeedInlineFolderV{A: 1, F: SeedFolderV{2}}, B: "b"}, seedInlineIfc2{X: 1, I: SeedInlineFolderV{A: 1, F: SeedFolderV{2}}},
 			[]interface{}{SeedInlineIfc{I: seedInlineIfc2{X: 1, I: map[string]interface{}{"z": 3}}, B: "b"}, SeedInlineIfc{I: map[string]interface{}{"k": 1}, B: "after"}}}, nil, nil},
+		// an inlined interface{} holding a typed nil pointer / a nil map: nothing to inline
+		{"SeedInlineTypedNil", []interface{}{SeedInlineIfc{I: (*seedInner2)(nil), B: "b"}, SeedInlineIfc{I: map[string]interface{}(nil), B: "b"}, SeedInlineIfc{I: (*SeedFolderV)(nil), B: "b"},
+			seedInlineIfc2{X: 1, I: (*seedInlineIfc2)(nil)}, []interface{}{SeedInlineIfc{I: (*seedInner2)(nil), B: "1"}, SeedInlineIfc{I: &seedInner2{X: 2}, B: "2"}}}, nil, nil},
 		{"SeedInlinePtr", []interface{}{SeedInlinePtr{Q: 1}, SeedInlinePtr{P: &seedInner2{X: 1, M: map[string]bool{"m": false}}, Q: 2}}, nil, nil},
 		{"SeedCustomHolder", []interface{}{SeedCustomHolder{C: SeedCustom{1}, P: &SeedCustom{2}, In: SeedCustom{3}}, SeedCustomHolder{}, SeedCustom{4}, &SeedCustom{5}, []SeedCustom{{6}}, map[string]*SeedCustom{"k": {7}}},
 			[]gotype.FoldOption{gotype.Folders(foldSeedCustom)}, nil},
